@@ -137,6 +137,7 @@ def run(chk, prog, tier):
     rule_i(chk, prog)
     from ._siblings import evap_stage_agreement
     evap_stage_agreement(chk, prog, "C04.j")
+    rule_k(chk, prog)
     chk.assume("A-1")
     chk.exhaustive = True
 
@@ -504,3 +505,94 @@ def rule_d(chk, prog):
                           "can become negative on ponded fields", loc=tr.loc(a), witness=wit)
     chk.floor("C04.d", found, 1, "submergence-factor computations")
     chk.assume("A-16")
+
+
+def _nonneg_expr(e) -> bool:
+    """syntactically non-negative: a constant >= 0, max(.., c >= 0, ..), abs(.)"""
+    if isinstance(e, ast.Constant) and isinstance(e.value, (int, float)) and not isinstance(e.value, bool):
+        return e.value >= 0
+    if isinstance(e, ast.Call) and norm(e.func) in ("max", "np.maximum", "np.max") and e.args:
+        args = e.args[0].elts if len(e.args) == 1 and isinstance(e.args[0], (ast.List, ast.Tuple)) else e.args
+        return any(_nonneg_expr(a) for a in args)
+    if isinstance(e, ast.Call) and norm(e.func) in ("abs", "np.abs", "np.absolute"):
+        return True
+    return False
+
+
+def rule_k(chk, prog):
+    """C04.k (extraction amounts are non-negative): a local `a` that is, in one block, added to a flux accumulator (`E = E + a`) and taken off
+    a water depth (`W = W - a`) is an amount of water moved; on every path from each of its definitions to such a block the amount is
+    non-negative: the definition is syntactically non-negative (constant >= 0, max(.., 0)), or the path passes an edge that asserts it
+    (`a < 0` False with the True branch assigning 0, `a > 0` / `a >= 0` True - a loop test included). A product with a factor of unknown
+    sign - the covered fraction of the compartment below the evaporation layer is negative - is not."""
+    from ..rdef import flow_of, ENTRY
+    from ..model import walk_no_nested
+    n = 0
+    roles = step_roles(prog)
+    for key in sorted(roles.reached):
+        fi = prog.funcs[key]
+        if fi.name not in ("soil_evaporation",):
+            continue
+        flow = flow_of(fi)
+        cfg = flow.cfg
+        where = f"{fi.module}:{fi.qualname}"
+        # blocks: consecutive simple statements of one body
+        for blk_owner in ast.walk(fi.node):
+            for attr in ("body", "orelse"):
+                body = getattr(blk_owner, attr, None)
+                if not isinstance(body, list):
+                    continue
+                adds, subs = {}, {}
+                for st in body:
+                    if isinstance(st, ast.Assign) and isinstance(st.targets[0], ast.Name) and isinstance(st.value, ast.BinOp) \
+                            and isinstance(st.value.left, ast.Name) and st.value.left.id == st.targets[0].id and isinstance(st.value.right, ast.Name):
+                        (adds if isinstance(st.value.op, ast.Add) else subs if isinstance(st.value.op, ast.Sub) else {}).setdefault(st.value.right.id, st)
+                for a in sorted(set(adds) & set(subs)):
+                    use = adds[a]
+                    un = flow.stmt_node.get(id(use))
+                    if un is None:
+                        continue
+                    n += 1
+                    chk.fn(key)
+                    bad = []
+                    for d in flow.defs_reaching(a, un):
+                        if d == ENTRY:
+                            bad.append("function entry")
+                            continue
+                        da = cfg.nodes[d].ast
+                        if isinstance(da, ast.Assign) and _nonneg_expr(da.value):
+                            continue
+                        # edges asserting a >= 0
+                        asserting, kills = set(), set()
+                        for t in cfg.live_nodes():
+                            c = t.ast
+                            if t.kind == "test" and isinstance(c, ast.Compare) and len(c.ops) == 1 and isinstance(c.left, ast.Name) and c.left.id == a \
+                                    and isinstance(c.comparators[0], ast.Constant) and c.comparators[0].value in (0, 0.0):
+                                if isinstance(c.ops[0], (ast.Gt, ast.GtE)):
+                                    asserting.add((t.id, True))
+                                elif isinstance(c.ops[0], ast.Lt):
+                                    asserting.add((t.id, False))
+                            if t.id != d and isinstance(c, (ast.Assign, ast.AugAssign)) and any(isinstance(x, ast.Name) and x.id == a for x in ([c.target] if isinstance(c, ast.AugAssign) else c.targets)):
+                                kills.add(t.id)
+                        # is the use reachable from d without an asserting edge and without a redefinition?
+                        seen, stack, reach = set(), [d], False
+                        while stack:
+                            k = stack.pop()
+                            if k in seen:
+                                continue
+                            seen.add(k)
+                            for t, l in cfg.nodes[k].succs:
+                                if (k, l) in asserting or t in kills:
+                                    continue
+                                if t == un:
+                                    reach = True
+                                stack.append(t)
+                        if reach:
+                            bad.append(norm(da)[:70])
+                    construct = f"{norm(use)} / {norm(subs[a])}"
+                    if bad:
+                        chk.violation("C04.k", where, construct, f"the amount `{a}` moved out of the compartment can be negative: definition(s) {bad} reach this block on a path "
+                                      f"that neither clamps nor tests `{a}` against 0 - actual evaporation is then reduced and water is added to the compartment", loc=fi.loc(use))
+                    else:
+                        chk.ok("C04.k", where, construct, f"`{a}` is non-negative on every path into the block")
+    chk.floor("C04.k", n, 4, "extraction blocks (amount added to the flux and taken off the water depth)")
